@@ -1,0 +1,21 @@
+//go:build verif
+
+package secec
+
+import (
+	"io"
+
+	"gitlab.com/yawning/secp256k1-voi"
+)
+
+// Verification-only exports (build tag `verif`).  Not part of the API.
+
+// VerifSampleRandomScalar exposes the rejection sampler.
+func VerifSampleRandomScalar(rand io.Reader) (*secp256k1.Scalar, error) {
+	return sampleRandomScalar(rand)
+}
+
+// VerifNewDrbgRFC6979 exposes the RFC 6979 nonce generator.
+func VerifNewDrbgRFC6979(x, e *secp256k1.Scalar) io.Reader {
+	return newDrbgRFC6979(x, e)
+}
